@@ -241,7 +241,11 @@ static struct rtr_bgpsec *to_lib(const struct mpath *m, int nsigs)
 	nl->safi = m->safi;
 	nl->nlri_len = m->nlri_len;
 	memcpy(nl->nlri, m->nlri, 32);
-	b = rtr_mgr_bgpsec_new(m->alg, m->safi, m->afi, m->h[0].asn, m->target_as, nl);
+	/* my_as takes no part in RFC 8205's digest (the signer's AS is the one in its Secure_Path segment): under AS
+	 * migration, local-as or a confederation it differs from the newest segment's AS, so every other path gets one
+	 * that does */
+	b = rtr_mgr_bgpsec_new(m->alg, m->safi, m->afi, ((m->target_as ^ m->nlri[0] ^ (uint32_t)m->n) & 1) ? m->h[0].asn : (m->target_as * 2654435761u) ^ m->h[0].asn ^ 0x5a5a,
+			       m->target_as, nl);
 	for (int j = 0; j < m->n; j++)
 		rtr_mgr_bgpsec_append_sec_path_seg(b, rtr_mgr_bgpsec_new_secure_path_seg(m->h[j].pcount, m->h[j].flags, m->h[j].asn));
 	/* the last nsigs hops (the older ones) carry signatures; for validation nsigs == n */
@@ -560,7 +564,25 @@ static void run_sign_case(struct rng *r, long c, int maxhops)
 			else
 				ERR_raise(ERR_LIB_EC, EC_R_BAD_SIGNATURE);
 		}
-		rc = rtr_mgr_bgpsec_generate_signature(b, KEYS[keyidx[j]].priv, &ns);
+		{
+			/* one key file in five carries the scalar only (RFC 5915: the public key is optional); the library reads a
+			 * fixed number of bytes, the rest of the buffer is zero */
+			uint8_t so[PRIVLEN];
+			const uint8_t *kb = KEYS[keyidx[j]].priv;
+
+			if ((c + j) % 5 == 2) {
+				static const uint8_t head[] = {0x30, 0x31, 0x02, 0x01, 0x01, 0x04, 0x20};
+				static const uint8_t tail[] = {0xA0, 0x0A, 0x06, 0x08, 0x2A, 0x86, 0x48, 0xCE, 0x3D, 0x03, 0x01, 0x07};
+
+				memset(so, 0, sizeof(so));
+				memcpy(so, head, sizeof(head));
+				memcpy(so + sizeof(head), kb + 7, 32);
+				memcpy(so + sizeof(head) + 32, tail, sizeof(tail));
+				kb = so;
+				CNT("c12/signings_with_a_scalar_only_key_file");
+			}
+			rc = rtr_mgr_bgpsec_generate_signature(b, (uint8_t *)kb, &ns);
+		}
 		ERR_clear_error();
 		CNT("c12/signatures_requested");
 		if (rc != RTR_BGPSEC_SUCCESS || !ns) {
@@ -629,7 +651,7 @@ static void run_sign_case(struct rng *r, long c, int maxhops)
 		struct rtr_bgpsec *b;
 		struct rtr_signature_seg *ns = NULL;
 		uint8_t bad[PRIVLEN];
-		int rc, kind = (int)(c % 6);
+		int rc, kind = (int)(c % 8);
 		const char *lbl;
 		int want;
 
@@ -675,6 +697,44 @@ static void run_sign_case(struct rng *r, long c, int maxhops)
 			lbl = "unsupported-afi";
 			want = RTR_BGPSEC_UNSUPPORTED_AFI;
 			break;
+		case 6: {
+			/* RFC 5915 leaves the public key in an ECPrivateKey optional: a key file with the scalar only, and the
+			 * scalar outside [1, n-1] - well-formed DER, no P-256 key */
+			static const uint8_t head[] = {0x30, 0x31, 0x02, 0x01, 0x01, 0x04, 0x20};
+			static const uint8_t tail[] = {0xA0, 0x0A, 0x06, 0x08, 0x2A, 0x86, 0x48, 0xCE, 0x3D, 0x03, 0x01, 0x07};
+			static const uint8_t order[32] = {0xFF, 0xFF, 0xFF, 0xFF, 0x00, 0x00, 0x00, 0x00, 0xFF, 0xFF, 0xFF, 0xFF, 0xFF, 0xFF, 0xFF, 0xFF,
+							  0xBC, 0xE6, 0xFA, 0xAD, 0xA7, 0x17, 0x9E, 0x84, 0xF3, 0xB9, 0xCA, 0xC2, 0xFC, 0x63, 0x25, 0x51};
+			uint8_t *sc = bad + sizeof(head);
+
+			memset(bad, 0, sizeof(bad));
+			memcpy(bad, head, sizeof(head));
+			memcpy(bad + sizeof(head) + 32, tail, sizeof(tail));
+			switch (rndn(r, 4)) {
+			case 0: /* zero */
+				break;
+			case 1: /* the group order itself */
+				memcpy(sc, order, 32);
+				break;
+			case 2: /* a little above the order */
+				memcpy(sc, order, 32);
+				sc[31] = (uint8_t)(sc[31] + 1 + rndn(r, 100));
+				break;
+			default: /* far above it */
+				memset(sc, 0xFF, 32);
+				sc[20 + rndn(r, 12)] = (uint8_t)rnd32(r);
+				break;
+			}
+			lbl = "scalar-only-key-out-of-range";
+			want = RTR_BGPSEC_LOAD_PRIV_KEY_ERROR;
+			break;
+		}
+		case 7:
+			/* well-formed key file whose public point belongs to another scalar */
+			memcpy(bad, KEYS[0].priv, PRIVLEN);
+			memcpy(bad + PRIVLEN - 64, KEYS[1].priv + PRIVLEN - 64, 64);
+			lbl = "public-point-of-another-key";
+			want = RTR_BGPSEC_LOAD_PRIV_KEY_ERROR;
+			break;
 		default:
 			memcpy(bad, KEYS[0].priv, PRIVLEN);
 			lbl = "wrong-segment-count";
@@ -699,7 +759,7 @@ static void run_sign_case(struct rng *r, long c, int maxhops)
 			snprintf(key, sizeof(key), "C12:wrong-code:%s:got%d", lbl, rc);
 			viol("C12", key, "%s: expected %d, library returned %d", lbl, want, rc);
 		}
-		if (kind <= 2 && rc != RTR_BGPSEC_SUCCESS) {
+		if ((kind <= 2 || kind == 6 || kind == 7) && rc != RTR_BGPSEC_SUCCESS) {
 			/* the answer must not depend on what was presented before: the same unloadable key again */
 			struct rtr_signature_seg *ns2 = NULL;
 			int rc2 = rtr_mgr_bgpsec_generate_signature(b, bad, &ns2);
@@ -712,7 +772,7 @@ static void run_sign_case(struct rng *r, long c, int maxhops)
 			if (ns2 && rc2 != RTR_BGPSEC_SIGNING_ERROR)
 				rtr_mgr_bgpsec_free_signatures(ns2);
 		}
-		if (rc != RTR_BGPSEC_SUCCESS && ns != NULL && kind >= 3) {
+		if (rc != RTR_BGPSEC_SUCCESS && ns != NULL && kind >= 3 && kind <= 5) {
 			snprintf(key, sizeof(key), "C12:new-signature-set-on-error:%s", lbl);
 			viol("C12", key, "%s: *new_signature was modified although the call failed with %d", lbl, rc);
 		}
